@@ -51,6 +51,8 @@ type Engine struct {
 	Params    map[string]int
 
 	mu        sync.Mutex
+	visited     map[string]int
+	visitedHits int
 	funcsSeen map[string]bool
 	stubsSeen map[string]int
 }
